@@ -115,7 +115,7 @@ pub const RELAXATIONS: &[(&str, &str)] = &[
   ("c03:ws_in_tag_head_type", "head-number =/ \"<\" S type S \">\"\n"),
   ("c03:escaped_quote_in_bytes", "BCHAR =/ \"\\\"\n"),
   ("c03:any_escape_in_bytes", "BCHAR =/ \"\\\" %x20-7E / \"\\\" NONASCII\n"),
-  ("c03:control_chars_in_text", "SCHAR =/ %x01-1F / %x7F-9F\nBCHAR =/ %x01-09 / %x0B-1F / %x7F-9F\nPCHAR =/ %x01-09 / %x0B-0C / %x0E-1F / %x7F-9F\n"),
+  ("c03:control_chars_in_text", "SCHAR =/ %x00-1F / %x7F-9F\nBCHAR =/ %x00-09 / %x0B-1F / %x7F-9F\nPCHAR =/ %x00-09 / %x0B-0C / %x0E-1F / %x7F-9F\n"),
 ];
 
 pub fn grammar() -> Grammar {
